@@ -20,6 +20,14 @@ Theorem C20_gen_registry_reserved :
   zero_metric_id_literals = [0].
 Proof. repeat split; reflexivity. Qed.
 
+(* tie to the source, worker.Run (exec/bigmachine.go): the worker-side task scope is
+   reset before the task is executed, and the deferred block that fills reply.Scope is
+   registered before the switch on task.state, i.e. on every path that answers *)
+Theorem C20_gen_worker_resets_scope : worker_run_resets_scope = true.
+Proof. reflexivity. Qed.
+Theorem C20_gen_worker_reply_filled_on_every_path : worker_run_reply_filled_on_every_path = true.
+Proof. reflexivity. Qed.
+
 (* the initial world (fresh zero-valued scopes) is well formed *)
 Theorem C20_wf_init : forall reg ns, wf (init reg ns).
 Proof. exact wf_init. Qed.
@@ -175,6 +183,31 @@ Theorem C20_hist_total : forall bigm reg tasks,
 Proof. exact hist_total. Qed.
 Print Assumptions C20_result_total_after_recompute.
 Print Assumptions C20_hist_total.
+
+(* ---- a task submitted again to the worker that still holds it as done: the worker
+        answers without executing and the reply carries the completed task's scope, so
+        the total is unchanged by any number of re-submissions ---- *)
+Theorem C20_result_total_after_resubmission_to_same_worker : forall (wr : bool) reg tasks,
+  (forall ln, In ln tasks -> counters_ok reg (fst ln)) ->
+  exists w, run_bigmachine_resub wr true reg tasks = (w, Ok tt) /\ wf w /\
+  forall m, (m < reg)%nat -> peek w 0 m = wrap (sum_incs m (concat (map fst tasks))).
+Proof. exact result_total_after_resubmission_to_same_worker. Qed.
+
+(* a worker whose early return leaves the reply empty wipes the task on the driver *)
+Theorem C20_resubmission_empty_reply_refuted :
+  exists tasks,
+    (forall ln, In ln tasks -> counters_ok 2 (fst ln)) /\
+    let '(w, r) := run_bigmachine_resub true false 2 tasks in
+    r = Ok tt /\ peek w 0 1 = 0 /\ wrap (sum_incs 1 (concat (map fst tasks))) = 21.
+Proof. exact resubmission_empty_reply_refuted. Qed.
+
+Theorem C20_resub_total : forall reg tasks,
+  worker_run_reply_filled_on_every_path = true ->
+  (forall ln, In ln tasks -> counters_ok reg (fst ln)) ->
+  exists w, resub_model reg tasks = (w, Ok tt) /\
+  forall m, (m < reg)%nat -> peek w 0 m = wrap (sum_incs m (concat (map fst tasks))).
+Proof. exact resub_total. Qed.
+Print Assumptions C20_result_total_after_resubmission_to_same_worker.
 
 (* ---- the checker applied to the implementation is satisfied by the model ---- *)
 Theorem C20_model_case_ok : forall reg ns os,
